@@ -17,6 +17,7 @@ import (
 	"net/http"
 	"net/url"
 	"strings"
+	"sync/atomic"
 	"time"
 )
 
@@ -34,7 +35,11 @@ type OCSPRevocationChecker struct {
 	ocspConfig *config.OCSPConfig
 	logger     *zap.Logger
 	cache      *cache2go.CacheTable
+	cacheAdds  uint64
 }
+
+// every pruneInterval-th response which is added to the cache triggers the removal of the expired ones
+const pruneInterval = 256
 
 func (c *OCSPRevocationChecker) IsRevoked(clientCertificate *x509.Certificate, verifiedChains [][]*x509.Certificate) (*core.RevocationStatus, error) {
 	//a certificate is identified by its issuer and its serial number
@@ -88,10 +93,15 @@ func (c *OCSPRevocationChecker) IsRevoked(clientCertificate *x509.Certificate, v
 			}
 			evictionTime := c.calculateEvictionTime(ocspResponse)
 			if evictionTime > 0 {
-				c.cache.Add(cacheKey, evictionTime, cachedRevocationStatus{
+				//the item is added without a lifespan: the expiry timers of the cache are not used because they can block
+				//against concurrent readers for ever. The lifetime is enforced by expiresAt, expired items are pruned here
+				c.cache.Add(cacheKey, 0, cachedRevocationStatus{
 					status:    revocationStatus,
 					expiresAt: time.Now().Add(evictionTime),
 				})
+				if atomic.AddUint64(&c.cacheAdds, 1)%pruneInterval == 0 {
+					c.pruneExpiredResponses()
+				}
 			}
 			return &revocationStatus, nil
 		}
@@ -105,6 +115,20 @@ func (c *OCSPRevocationChecker) IsRevoked(clientCertificate *x509.Certificate, v
 		}, nil
 	}
 
+}
+
+func (c *OCSPRevocationChecker) pruneExpiredResponses() {
+	now := time.Now()
+	expiredKeys := make([]interface{}, 0)
+	c.cache.Foreach(func(key interface{}, item *cache2go.CacheItem) {
+		cached, ok := item.Data().(cachedRevocationStatus)
+		if ok && !now.Before(cached.expiresAt) {
+			expiredKeys = append(expiredKeys, key)
+		}
+	})
+	for _, key := range expiredKeys {
+		_, _ = c.cache.Delete(key)
+	}
 }
 
 func (c *OCSPRevocationChecker) calculateEvictionTime(response *ocsp.Response) time.Duration {
@@ -219,8 +243,7 @@ func (c *OCSPRevocationChecker) tryGetResponseFromCache(cacheKey string) (*core.
 		cached := res.Data().(cachedRevocationStatus)
 		//the cache keeps an item alive as long as it is read; the lifetime of a response is absolute
 		if !time.Now().Before(cached.expiresAt) {
-			//the expired item is not deleted here: the fresh response replaces it under the same key, and deleting
-			//concurrently with other readers and the expiry timer of the cache can block all of them for ever
+			//the expired item is not deleted here: the fresh response replaces it under the same key
 			return nil, errors.New("cached ocsp response is expired")
 		}
 		response := cached.status
